@@ -19,6 +19,9 @@ analysis (RQA) and recurrence network analysis.
 """
 
 # array object and fast numerics
+from typing import Tuple
+from collections.abc import Hashable
+
 import numpy as np
 
 from ..core import Network
@@ -144,6 +147,14 @@ class RecurrenceNetwork(RecurrencePlot, Network):
             Network.__init__(self, A, directed=False,
                              node_weights=node_weights,
                              silence_level=silence_level)
+
+    def __cache_state__(self) -> Tuple[Hashable, ...]:
+        try:
+            network_state = Network.__cache_state__(self)
+        except AttributeError:
+            # network part not initialised yet
+            network_state = ()
+        return RecurrencePlot.__cache_state__(self) + network_state
 
     def __str__(self):
         """
